@@ -25,20 +25,62 @@ const (
 	TLikeContains                      // literal is a LIKE pattern meaning: contains Pre(v)
 )
 
-// Transform says what a carrier literal must decode to for front-end value v.
+// Val is the front end's reading of the position: Whole is the value of the position; Hole is the part of it
+// that is the hostile (or harmless stand-in) string when the site embeds it in a context template such as
+// `^(a|§)$` (Hole == Whole without a context).  A planner may legitimately take a shaped value apart (an anchored
+// alternation into an IN list), so a carrier may hold the whole value, the hole, or one alternative.
+type Val struct{ Whole, Hole string }
+
+// Transform says what a carrier literal must decode to for the front-end value v.
 type Transform struct {
 	Name string
 	Kind TransformKind
-	Pre  func(v string) (string, bool) // ok=false: this reading does not apply to v
+	Pre  func(v Val) (string, bool) // ok=false: this reading does not apply to v
 }
 
-func identity(v string) (string, bool) { return v, true }
+func identity(v Val) (string, bool) { return v.Whole, true }
+func holeOf(v Val) (string, bool)   { return v.Hole, true }
 
 var tExact = Transform{"value", TExact, identity}
+var tHole = Transform{"hole", TExact, holeOf}
 var tLike = Transform{"like_contains", TLikeContains, identity}
+var tLikeHole = Transform{"like_contains_hole", TLikeContains, holeOf}
+
+// alternatives reads w as an anchored alternation: optional ^ and $, optional one enclosing ( ) or (?: ), split at |.
+func alternatives(w string) []string {
+	w = strings.TrimPrefix(w, "^")
+	w = strings.TrimSuffix(w, "$")
+	if strings.HasSuffix(w, ")") {
+		if strings.HasPrefix(w, "(?:") {
+			w = w[3 : len(w)-1]
+		} else if strings.HasPrefix(w, "(") {
+			w = w[1 : len(w)-1]
+		}
+	}
+	return strings.Split(w, "|")
+}
+
+// tAlt(i): the carrier holds the i-th alternative of the value.
+func tAlt(i int) Transform {
+	return Transform{fmt.Sprintf("alternative_%d", i), TExact, func(v Val) (string, bool) {
+		a := alternatives(v.Whole)
+		if i >= len(a) {
+			return "", false
+		}
+		return a[i], true
+	}}
+}
+
+func altTransforms(n int) []Transform {
+	var out []Transform
+	for i := 0; i < n; i++ {
+		out = append(out, tAlt(i))
+	}
+	return out
+}
 
 // canonical is one literal value that satisfies the transform (used to recognise carriers on harmless values).
-func (t Transform) canonical(v string) (string, bool) {
+func (t Transform) canonical(v Val) (string, bool) {
 	p, ok := t.Pre(v)
 	if !ok {
 		return "", false
@@ -60,7 +102,7 @@ func likeEscape(s string) string {
 	return b.String()
 }
 
-func (t Transform) satisfied(decoded, v string) bool {
+func (t Transform) satisfied(decoded string, v Val) bool {
 	p, ok := t.Pre(v)
 	if !ok {
 		return false
@@ -78,14 +120,46 @@ type Variant struct {
 	Name   string
 	BX, BY string
 	T      []Transform
+	// Whole: BX/BY are complete values of the position (they are not put into the site's context template): the
+	// planner may collapse a shaped value into the branch of a plain one (the regex a|a is the literal a).
+	Whole bool
 }
 
-var defaultVariants = []Variant{{"value", "x", "y", []Transform{tExact}}}
+var defaultVariants = []Variant{{Name: "value", BX: "x", BY: "y", T: []Transform{tExact, tHole}}}
+
+// regexValueVariants: a position whose value is a regular expression.  Planners may (and the repository's do, for
+// line filters) branch on the shape of the expression; accepted readings: the stand-in x/y in the same context
+// (carrier = whole value, hole or one alternative), a stand-in that is certainly not a plain literal (x.), and -
+// when the hole itself contains | - a stand-in with the same number of alternatives.
+func regexValueVariants(q Quoted) []Variant {
+	vs := []Variant{
+		{Name: "value", BX: "x", BY: "y", T: append([]Transform{tExact, tHole}, altTransforms(4)...)},
+		{Name: "regex_generic", BX: "x.", BY: "y.", T: []Transform{tExact}},
+		{Name: "plain_value_whole", BX: "x", BY: "y", T: append([]Transform{tExact, tHole}, altTransforms(4)...), Whole: true},
+		{Name: "regex_generic_whole", BX: "x.", BY: "y.", T: []Transform{tExact}, Whole: true},
+	}
+	if strings.Contains(q.Hole, "|") {
+		vs = append(vs, Variant{Name: "same_alternatives", BX: pipeShape(q.Hole, "x"), BY: pipeShape(q.Hole, "y"),
+			T: append([]Transform{tExact}, altTransforms(6)...)})
+	}
+	return vs
+}
+
+// pipeShape keeps every | of s and replaces each run of other bytes by filler.
+func pipeShape(s, filler string) string {
+	parts := strings.Split(s, "|")
+	for i, p := range parts {
+		if p != "" {
+			parts[i] = filler
+		}
+	}
+	return strings.Join(parts, "|")
+}
 
 // regexp literal reading used by `|~` / `!~` line filters: the planner turns a pure literal regex into LIKE.
-func regexLiteral(fold bool) func(string) (string, bool) {
-	return func(v string) (string, bool) {
-		exp, err := syntax.Parse(v, syntax.PerlX)
+func regexLiteral(fold bool) func(Val) (string, bool) {
+	return func(v Val) (string, bool) {
+		exp, err := syntax.Parse(v.Whole, syntax.PerlX)
 		if err != nil || exp.Op != syntax.OpLiteral || exp.Flags&^(syntax.PerlX|syntax.FoldCase) != 0 {
 			return "", false
 		}
@@ -96,11 +170,12 @@ func regexLiteral(fold bool) func(string) (string, bool) {
 	}
 }
 
-var lineFilterLikeVariants = []Variant{{"like", "x", "y", []Transform{tLike}}}
+var lineFilterLikeVariants = []Variant{{Name: "like", BX: "x", BY: "y", T: []Transform{tLike, tLikeHole}}}
 var lineFilterRegexVariants = []Variant{
-	{"regex_literal_like", "x", "y", []Transform{{"like_contains_literal", TLikeContains, regexLiteral(false)}}},
-	{"regex_literal_ilike", "(?i)x", "(?i)y", []Transform{{"ilike_contains_literal", TLikeContains, regexLiteral(true)}}},
-	{"regex_match", "x.", "y.", []Transform{tExact}},
+	{Name: "regex_literal_like", BX: "x", BY: "y", T: []Transform{{"like_contains_literal", TLikeContains, regexLiteral(false)}}, Whole: true},
+	{Name: "regex_literal_ilike", BX: "(?i)x", BY: "(?i)y", T: []Transform{{"ilike_contains_literal", TLikeContains, regexLiteral(true)}}, Whole: true},
+	{Name: "regex_match", BX: "x.", BY: "y.", T: []Transform{tExact}, Whole: true},
+	{Name: "regex_match_same_context", BX: "x", BY: "y", T: append([]Transform{tExact, tHole}, altTransforms(4)...)},
 }
 
 // lexed statement
@@ -178,7 +253,7 @@ func tokStr(t chlex.Token) string {
 // compare checks the statements rendered for value v against the statements rendered for the variant's two
 // harmless values (vx, vy: what the front end reads for them).  nil = the variant explains the statements completely.  carriers reports how many literals
 // carried the position.
-func compare(got, bx, by []*stmt, va Variant, v, vx, vy string) (f *Finding, carriers int) {
+func compare(got, bx, by []*stmt, va Variant, v, vx, vy Val) (f *Finding, carriers int) {
 	if len(bx) != len(by) {
 		return &Finding{Reason: "benign_query_count_differs", Detail: fmt.Sprintf("%d statements for %q, %d for %q", len(bx), va.BX, len(by), va.BY), Variant: va.Name}, 0
 	}
